@@ -1,3 +1,4 @@
+import random
 """Scenario generator for World B (live): small markets, request scripts, exchange-side events, fault plans,
 scheduler tapes, crash points."""
 from . import marketgen
@@ -50,6 +51,17 @@ def gen_live(rng, flavour):
     n_markets = 1 if rng.random() < 0.75 else 2
     knobs = {"n_updates": (4, rng.choice([6, 10, 14])), "p_removal": 0.0, "p_suspend": rng.choice([0.0, 0.0, 0.6]), "p_inplay": 0.0, "p_close": 0.0, "n_runners": (2, 3), "spacing": "normal"}
     markets = [marketgen.gen_market(rng, i, knobs) for i in range(n_markets)]
+    side = random.Random("live-extras|%s" % markets[0]["updates"][0]["pt"])  # side generator: the main stream stays as it was
+    if flavour == "C11" and side.random() < 0.25:
+        # one market closes part-way (it stays registered: a live framework keeps closed markets for an hour)
+        m = markets[side.randrange(n_markets)]
+        k0 = side.randint(2, len(m["updates"]) - 1)
+        closing = marketgen._closing_update(side, m, m["updates"][k0 - 1], m["updates"][k0]["pt"], dict(marketgen.DEFAULT_KNOBS))
+        m["updates"][k0] = closing
+        del m["updates"][k0 + 1:]
+        closed_idx = markets.index(m)
+    else:
+        closed_idx = None
     n_strat = rng.choice([1, 1, 2])
     sc = {
         "world": "B",
@@ -68,6 +80,12 @@ def gen_live(rng, flavour):
         for mi in st["markets"]:
             gen_actions(rng, markets[mi], st["name"], mix)
     sc["exchange_events"] = [{"type": rng.choice(["fill", "fill", "fill", "lapse"]), "bet": rng.randrange(6), "size": rng.choice([0.5, 1.0, 2.0, 50.0])} for _ in range(rng.choice([0, 1, 2, 4, 6]))]
+    if closed_idx is not None and side.random() < 0.6:
+        # a bet of another instance shows up for the closed market (late in the session)
+        sc["exchange_events"].append({"type": "sibling_bet", "market": closed_idx, "strategy": side.randrange(n_strat), "runner": side.randrange(3), "side": side.choice(["BACK", "LAY"])})
+    if flavour == "C11" and side.random() < 0.3:
+        for _ in range(side.choice([1, 2])):
+            sc["exchange_events"].insert(side.randint(0, len(sc["exchange_events"])), {"type": "sibling_bet", "market": side.randrange(n_markets), "strategy": side.randrange(n_strat), "runner": side.randrange(3), "side": side.choice(["BACK", "LAY"])})
     faults = {}
     if flavour == "C11":
         # only replies the bet table justifies; some placements match immediately
